@@ -10,7 +10,7 @@ TD = "time_delta::TimeDelta"
 def run(chk, tier):
     P = Prog("default")
     chk.configs.add("default")
-    for r in (r_consts, r_new_box, r_units, r_absint, r_derive, r_shape, r_sum, r_checked_through_new):
+    for r in (r_consts, r_new_box, r_units, r_absint, r_derive, r_shape, r_sum, r_checked_through_new, r_value_map):
         chk.guarded(r, P, tier)
     chk.assume("exactness of checked_add/sub/mul/div results and the < 2 ns division bound are not decided (numerical content)")
     return {
@@ -195,3 +195,127 @@ def r_checked_through_new(chk, P, tier):
             if not is_new:
                 bad += 1
         chk.expect(n > 0 and bad == 0, name, "%s returns a value on %d of %d paths that is not the result of TimeDelta::new (a shortcut around the range check and the carry normalisation)" % (fn, bad, n), loc=P.loc(fn))
+
+
+# ---- region-representative value map ---------------------------------------------------------------------------------------------------
+NS = 10**9
+MAX_N = (2**63 - 1) * 10**6
+I64 = (-(2**63), 2**63 - 1)
+I32 = (-(2**31), 2**31 - 1)
+
+
+def _td(n):
+    return ("agg", "adt", TD, "TimeDelta", (("const", n // NS), ("const", n % NS)), 0)
+
+
+def _n_of(v):
+    """nanosecond count of a shown TimeDelta value ('TimeDelta::TimeDelta', secs, nanos)"""
+    if isinstance(v, tuple) and len(v) == 3 and v[0] == "TimeDelta::TimeDelta":
+        return v[1] * NS + v[2], (0 <= v[2] < NS)
+    return None, False
+
+
+def _tdiv(a, b):
+    q = abs(a) // abs(b)
+    return q if (a >= 0) == (b >= 0) else -q
+
+
+def r_value_map(chk, P, tier):
+    """The TimeDelta operations are piecewise-affine in (secs, nanos) with pieces delimited by comparisons against constants. Their def-use terms are folded
+    (no execution) on a domain that contains every boundary of those pieces and both neighbours: the range ends, zero, +-1 ns, +-1 s and their neighbours, the
+    nanosecond parts of MIN and MAX. The expected value is the exact integer result in nanoseconds (Python integers). Side condition checked on every run: each
+    integer constant that occurs in the folded functions is one of the boundaries the domain was built from (a new constant means a new piece: reported, not ignored)."""
+    from finmap import Folder, show, Unknown, _opt
+    from rules import consts_in_fn
+    chk.rule("MAP.values", "checked_add/sub/mul/div, abs, neg, new, the unit constructors and accessors folded on all region boundaries of (secs, nanos) equal exact integer arithmetic in nanoseconds", floor=900)
+    fo = Folder(P, max_depth=10)
+    ends = [-MAX_N, -MAX_N + 1, -MAX_N + NS - 193000000, -MAX_N + NS, -NS - 1, -NS, -NS + 1, -1, 0, 1, NS - 1, NS, NS + 1, 1500000000, -1500000000,
+            MAX_N - NS, MAX_N - 807000000, MAX_N - 1, MAX_N]
+    inr = lambda n: -MAX_N <= n <= MAX_N   # noqa
+    bad = {}
+    n_ok = [0]
+
+    def fold(fn, args):
+        try:
+            return show(fo.call(TD + "::" + fn, args))
+        except Unknown as e:
+            return "unknown: %s" % e
+
+    def expect(fn, args_txt, got, want):
+        if got == want:
+            n_ok[0] += 1
+        else:
+            bad.setdefault(fn, (args_txt, got, want))
+
+    def opt_td(v):
+        if v == "Option::None":
+            return None
+        if isinstance(v, tuple) and v[0] == "Option::Some":
+            n, norm = _n_of(v[1])
+            return (n, norm)
+        return ("?", v)
+
+    for a in ends:
+        for b in ends:
+            for fn, r in (("checked_add", a + b), ("checked_sub", a - b)):
+                got = opt_td(fold(fn, [("ref", _td(a)), ("ref", _td(b))]))
+                expect(fn, (a, b), got, (r, True) if inr(r) else None)
+        for k in (I32[0], I32[0] + 1, -1000, -3, -2, -1, 0, 1, 2, 3, 7, 1000, I32[1] - 1, I32[1]):
+            got = opt_td(fold("checked_mul", [("ref", _td(a)), ("const", k)]))
+            expect("checked_mul", (a, k), got, (a * k, True) if inr(a * k) else None)
+            got = opt_td(fold("checked_div", [("ref", _td(a)), ("const", k)]))
+            if k == 0:
+                expect("checked_div", (a, k), got, None)
+            else:
+                ok = isinstance(got, tuple) and got[0] != "?" and got[1] and abs(got[0] * k - a) < 2 * abs(k) and inr(got[0])
+                expect("checked_div", (a, k), ok or got, True)
+        n, norm = _n_of(fold("abs", [("ref", _td(a))]))
+        expect("abs", a, (n, norm), (abs(a), True))
+        n, norm = _n_of(fold("neg", [_td(a)]))
+        expect("neg", a, (n, norm), (-a, True))
+        expect("is_zero", a, fold("is_zero", [("ref", _td(a))]), a == 0)
+        for fn, unit in (("num_weeks", 604800 * NS), ("num_days", 86400 * NS), ("num_hours", 3600 * NS), ("num_minutes", 60 * NS), ("num_seconds", NS), ("num_milliseconds", 10**6)):
+            expect(fn, a, fold(fn, [("ref", _td(a))]), _tdiv(a, unit))
+        for fn, unit in (("num_microseconds", 1000), ("num_nanoseconds", 1)):
+            w = _tdiv(a, unit)
+            got = fold(fn, [("ref", _td(a))])
+            expect(fn, a, got, ("Option::Some", w) if I64[0] <= w <= I64[1] else "Option::None")
+        sub = a - _tdiv(a, NS) * NS       # sub-second part with the sign of the value
+        for fn, unit in (("subsec_nanos", 1), ("subsec_micros", 1000), ("subsec_millis", 10**6)):
+            expect(fn, a, fold(fn, [("ref", _td(a))]), _tdiv(sub, unit))
+    # constructors: each unit at the ends of its own accepted range, the i64 ends, zero and +-1
+    for fn, unit, total in (("weeks", 604800 * NS, False), ("days", 86400 * NS, False), ("hours", 3600 * NS, False), ("minutes", 60 * NS, False), ("seconds", NS, False),
+                            ("milliseconds", 10**6, False), ("microseconds", 1000, True), ("nanoseconds", 1, True)):
+        lim = MAX_N // unit
+        for x in sorted({I64[0], I64[0] + 1, -lim - 1, -lim, -lim + 1, -1001, -1000, -999, -1, 0, 1, 999, 1000, 1001, lim - 1, lim, lim + 1, I64[1] - 1, I64[1]}):
+            if not I64[0] <= x <= I64[1]:
+                continue
+            r = x * unit
+            if total:
+                n, norm = _n_of(fold(fn, [("const", x)]))
+                expect(fn, x, (n, norm), (r, True))
+            else:
+                got = opt_td(fold("try_" + fn, [("const", x)]))
+                expect("try_" + fn, x, got, (r, True) if inr(r) else None)
+    smax = MAX_N // NS
+    for sec in (-smax - 2, -smax - 1, -smax, -1, 0, 1, smax - 1, smax, smax + 1):
+        for ns in (0, 1, 192999999, 193000000, 193000001, 806999999, 807000000, 807000001, NS - 1, NS, NS + 1, 2**32 - 1):
+            r = sec * NS + ns
+            got = opt_td(fold("new", [("const", sec), ("const", ns)]))
+            expect("new", (sec, ns), got, (r, True) if ns < NS and inr(r) else None)
+    for _ in range(n_ok[0]):
+        chk.ok("value")
+    for fn, (a, got, want) in sorted(bad.items()):
+        chk.bad(fn, "TimeDelta::%s%s folds to %s, exact arithmetic gives %s" % (fn, a if isinstance(a, tuple) else "(%s)" % (a,), got, want), loc=P.loc(TD + "::" + (fn if P.has(TD + "::" + fn) else "new")))
+    # side condition: no piece boundary outside the domain
+    known = {0, 1, 2, 3, 1000, 10**6, NS, 60, 3600, 86400, 604800, 193000000, 807000000, smax, -smax - 1, -smax, 2 * NS, 4, 8, 16, 32, 63, 64, 24, 7, 2**31, 2**63}
+    known |= {c + d for c in list(known) for d in (-1, 1)}
+    fns = ["checked_add", "checked_sub", "checked_mul", "checked_div", "abs", "neg", "new", "num_seconds", "subsec_nanos", "num_milliseconds", "num_microseconds", "num_nanoseconds",
+           "try_seconds", "try_milliseconds", "microseconds", "nanoseconds", "try_minutes", "try_hours", "try_days", "try_weeks", "subsec_millis", "subsec_micros"]
+    extra = {}
+    for fn in fns:
+        for c in consts_in_fn(P, TD + "::" + fn):
+            if isinstance(c, int) and not isinstance(c, bool) and c not in known and c not in (I64[0], I64[1], I32[0], I32[1]):
+                extra.setdefault(c, fn)
+    chk.expect(not extra, "piece boundaries", "constants %s occur in the folded functions but are not boundaries of the evaluated domain (a new piece of a piecewise-affine function: extend the domain)" % (
+        sorted(extra.items())[:6],), loc=P.loc(TD + "::new"))
